@@ -81,4 +81,17 @@ def classifyCall (s : String) : Option Write :=
   else if s == "ws.prepareSheetXML" then some (.slot 0)
   else none
 
+/-! the function library (`formulaFuncs` methods) reaches the workbook only through these -/
+
+def libReaders : List String :=
+  ["f.GetCellFormula", "f.GetCellValue", "f.GetSheetIndex", "f.GetSheetList", "f.workSheetReader"]
+
+/-- classification of a use `fn.f.X` found in the methods of `formulaFuncs` -/
+def classifyLibUse (s : String) : Option Write :=
+  if s == "f.CalcCellValue" then some .ctx          -- re-entry with its own fresh context: the same frame again
+  else if s == "f.parseReference" then some .localVar -- the evaluator's own function (`evalInternal`)
+  else if s == "f.options" then some .localVar        -- field read
+  else if libReaders.contains s then some (.part 0)
+  else none
+
 end XlModel.CalcTotal
